@@ -139,6 +139,10 @@ func checkC02(c *Ctx) {
 	// ---- (2b) a memoised hash never survives a structural change
 	c.rule("TYPESTATE-stale-hash", "fields that enter the hash pre-image are written only on freshly copied nodes", 15)
 	checkStaleHashV1(c)
+	// the pre-image is expressed in these byte-level primitives (length prefix for every slice length, 32-byte hash form)
+	c.rule("FORMAT-primitives", "length-prefixed bytes and 32-byte hash primitives", 2)
+	checkFormatX(c, l, "FORMAT-primitives", "encoding.EncodeBytes", l.Func("internal/encoding", "EncodeBytes"), false, true, []string{"U(len(arg1)) W(arg1)"})
+	checkFormatX(c, l, "FORMAT-primitives", "encoding.Encode32BytesHash", l.Func("internal/encoding", "Encode32BytesHash"), false, true, []string{"W(global:hashLenBz) W(arg1)"})
 	c.rule("OWN-node-version", "a node's version (hashed into it) is fixed when the node is created or first keyed; re-keying keeps it", 1)
 	checkNodeVersionOwner(c)
 	// a Remove of an absent key must not replace the (persisted) root by an unsaved copy: the next commit would re-stamp it
